@@ -10,7 +10,7 @@
    calls of the exporter function made by the model of retrySender.Send, [verdict_of] the class of
    the error it returns.  [nth_error (steps_of sc script) k = Some st] reads "attempt k is made
    and st records it". *)
-From Verif Require Import Common.Base Generated.C05BackoffValidate Generated.C05RetryGo C05.Model C05.Proofs C05.Proofs2 C05.Tie C05.Harness C05.Clauses C05.ClausesProofs.
+From Verif Require Import Common.Base Generated.C05BackoffValidate Generated.C05RetryGo C05.Model C05.Proofs C05.Proofs2 C05.Tie C05.Harness C05.Clauses C05.ClausesProofs C05.LinkProofs.
 Local Open Scope Z_scope.
 
 (* ---- clause 1: retried if and only if ... ---------------------------------------------------------- *)
@@ -362,6 +362,25 @@ Proof. exact followed_ok_iff. Qed.
 Theorem clause_after_stop_reflects : forall sc st, after_stop_ok sc st = true <-> AfterStopOk sc st.
 Proof. exact after_stop_ok_iff. Qed.
 
+(* THE LINK: what the model produces always passes the checker.  For every scenario with a configuration accepted
+   by Validate and draws in [0,1) (exactly the guards of wait_envelope) and every script inside which the run ends,
+   the observation of the model's own run — built as the harness builds it from the implementation's: payload and
+   deadline class of every attempt, the logged delays, verdict and flags — violates none of the eight clauses.  So
+   the checker never demands more than the model delivers (no false alarm on behaviour the theorems allow), and a
+   clause violation reported on the implementation is a behaviour the model cannot produce. *)
+Theorem model_passes_checker : forall sc script,
+  valid_config (sc_cfg sc) -> (forall n, valid_draw (draw_at sc n)) -> verdict_of sc script <> VPending ->
+  violations_core sc true script (observe_atts sc (steps_of sc script)) (observe_delays (steps_of sc script))
+                  (observe_final sc script) = [].
+Proof. exact model_passes_checker_l. Qed.
+
+Theorem model_run_is_observe : forall h payload script delays,
+  let sc := scenario_of h payload delays in
+  let sp := map attempt_of script in
+  model_run h payload script delays =
+  (observe_atts sc (steps_of sc sp), (observe_delays (steps_of sc sp), observe_final sc sp)).
+Proof. exact LinkProofs.model_run_is_observe. Qed.
+
 (* ---- per-attempt timeout -------------------------------------------------------------------------------------- *)
 Theorem timeout_per_attempt : forall sc script k st,
   nth_error (steps_of sc script) k = Some st ->
@@ -417,4 +436,6 @@ Print Assumptions context_expiry_is_transient.
 Print Assumptions clause_checker_sound.
 Print Assumptions clause_followed_reflects.
 Print Assumptions clause_after_stop_reflects.
+Print Assumptions model_passes_checker.
+Print Assumptions model_run_is_observe.
 Print Assumptions timeout_per_attempt.
